@@ -648,18 +648,23 @@ def collapseOf (k : String) : List (String × Collapse) → Collapse
   | [] => .keep
   | (k', c) :: t => if k' == k then c else collapseOf k t
 
-/-- a derivative comes back with the parent's mask when that is an array (pickler.py:1052-1057), else with its own -/
+/-- pickler.py:985-989: the antimask exists iff `np.shape(self._mask_)` is truthy: an array mask of rank >= 1 -/
+def sharedMask : MaskD → Option (List Nat × Bool × Bool)
+  | .array s k w => if s.isEmpty then none else some (s, k, w)
+  | _ => none
+
+/-- a derivative comes back with the parent's mask when there is an antimask (pickler.py:1089-1094), else with its own -/
 def rebuildDeriv (parent : Body) (dc : List (String × Collapse)) (d : String × ObjDump) : String × ObjDump :=
-  match parent.mask with
-  | .array s k w =>
+  match sharedMask parent.mask with
+  | some (s, k, w) =>
     (d.1, bare { rebuildBody d.2.body .keep with mask := .array s k w })
-  | _ => (d.1, bare (rebuildBody d.2.body (collapseOf d.1 dc)))
+  | none => (d.1, bare (rebuildBody d.2.body (collapseOf d.1 dc)))
 
 /-- a derivative shares the parent's mask array; freezing a read-only derivative freezes that array -/
 def frozenByDerivs (body0 : Body) (derivs : List (String × ObjDump)) : Body :=
-  match body0.mask with
-  | .array s k w => { body0 with mask := .array s k (w && !derivs.any (fun d => d.2.body.readonly)) }
-  | _ => body0
+  match sharedMask body0.mask with
+  | some (s, k, w) => { body0 with mask := .array s k (w && !derivs.any (fun d => d.2.body.readonly)) }
+  | none => body0
 
 def setstate (o : ObjDump) (c : Collapse) (dc : List (String × Collapse)) : R ObjDump :=
   let body := frozenByDerivs (rebuildBody o.body c) o.derivs
